@@ -12,7 +12,7 @@ BIG_IO = lambda a: "-l" in a        # which command lines of cases.rand_cli the 
 
 
 def _run_once(chk):
-    chk.rule = ("inputs of 1-6 lines from {'', a, bc, é, x CR, aé😎} with/without final EOL (never the empty input or a lone EOL), -z, handed over by the reader whole or in "
+    chk.rule = ("inputs of 1-6 lines from {'', a, bc, é, x CR, aé😎, aĊ (U+010A), Ā (U+0100), b上 (U+4E0A): characters whose code point ends in the byte of a terminator} with/without final EOL (never the empty input or a lone EOL), -z, handed over by the reader whole or in "
                 "random pieces of 1-4 bytes; plain bounds "
                 "lists of 1-3 bounds resolvable on the input (positive, negative, open, repeated, reordered), --no-join, -m; ascending positive "
                 "lists are additionally compared with the same list in which one index is spelled negatively (forces buffering); non-trivial = "
@@ -25,7 +25,7 @@ def _run_once(chk):
         z = rng.random() < 0.25
         eol = b"\0" if z else b"\n"
         nl = rng.randint(1, 6)
-        ls = [rng.choice([b"", b"a", b"bc", "é".encode(), b"x\r", "aé😎".encode()]) for _ in range(nl)]
+        ls = [rng.choice([b"", b"a", b"bc", "é".encode(), b"x\r", "aé😎".encode(), "a\u010a".encode(), "\u0100".encode(), "b\u4e0a".encode()]) for _ in range(nl)]
         if nl == 1 and ls[0] == b"":
             continue
         inp = eol.join(ls) + (eol if (ls[-1] == b"" or rng.random() < 0.6) else b"")
